@@ -1,1 +1,110 @@
 // contracts and harnesses for src/mpmc.rs (included as multiqueue2::mpmc::verif_contracts)
+//
+// S14/S15 (bounded stand-in): the public mpmc API through one concrete history per requested
+// capacity with symbolic payload values; see broadcast.rs contracts for the rationale.
+
+use super::*;
+use crate::verif_hooks::pay::{self, Pay};
+use crate::verif_hooks::*;
+
+pub(crate) unsafe fn e2e_mpmc(cap: u64) {
+    ledger::ON = true;
+    ledger::CAP_USED = ledger::CAP;
+    let n = crate::broadcast::BroadcastSender::<Pay>::vf_expected_n(cap);
+    let base: usize = rt::oracle_usize();
+    rt::assume(base < 1000);
+    {
+        let (tx, rx) = mpmc_queue_with::<Pay, EWait>(cap, EWait { notify: false });
+        let mut j = 0;
+        while j < n {
+            assert!(tx.try_send(Pay::new(base + j)).is_ok(), "C03/C09: fewer than N sends accepted on a fresh queue");
+            j += 1;
+        }
+        match tx.try_send(Pay::new(base + 99)) {
+            Err(TrySendError::Full(p)) => assert!(p.val == base + 99, "C01/C09: refused value handed back"),
+            _ => assert!(false, "C03/C09: the (N+1)-th send must be refused"),
+        }
+        // two handles on the one stream: each value goes to exactly one of them
+        let rxb = rx.clone();
+        match rx.try_recv() {
+            Ok(p) => assert!(p.val == base, "C02/C09: first value first"),
+            Err(_) => assert!(false, "C01/C09: value missing"),
+        }
+        if n > 1 {
+            match rxb.try_recv() {
+                Ok(p) => assert!(p.val == base + 1, "C01/C02: the sibling continues where the stream is, never repeats a value"),
+                Err(_) => assert!(false, "C01/C09: value missing"),
+            }
+        }
+        assert!(!rxb.unsubscribe(), "C11: unsubscribe on a non-last handle reports false");
+        assert!(tx.try_send(Pay::new(base + n)).is_ok(), "C03: a freed slot is accepted");
+        // single-consumer conversion and view
+        let u = match rx.into_single() {
+            Ok(u) => u,
+            Err(_) => {
+                assert!(false, "C09/C12: into_single succeeds once the sibling is gone");
+                return;
+            }
+        };
+        let start = if n > 1 { 2 } else { 1 };
+        let mut cnt = start;
+        for v in u.try_iter_with(|p: &Pay| p.val) {
+            assert!(v == base + cnt, "C02/C09: iterator yields values in order");
+            cnt += 1;
+        }
+        assert!(cnt == n + 1, "C01/C09: every value delivered exactly once");
+        let rx = u.into_multi();
+        // leave one value in the queue at teardown
+        assert!(tx.try_send(Pay::new(base + 77)).is_ok());
+        drop(tx);
+        match rx.recv() {
+            Ok(p) => assert!(p.val == base + 77, "C07: values accepted before the disconnect are still delivered"),
+            Err(_) => assert!(false, "C07: the end was reported before the last value"),
+        }
+        assert!(rx.try_recv() == Err(TryRecvError::Disconnected), "C07: drained and every sender gone");
+        assert!(rx.unsubscribe(), "C11: unsubscribe on the last handle reports true");
+    }
+    assert!(pay::DOUBLE_DROP == 0 && pay::DROP_OF_UNCREATED == 0, "C05: double drop");
+    assert!(pay::live_count() == 0, "C05: a payload was never dropped");
+    assert!(ledger::BAD_FREE == 0, "C16: double free");
+    assert!(ledger::LIVE_N == 0, "C17: memory still allocated after the last handle was dropped");
+}
+
+/// teardown with values still queued and receivers dropped first (C05, C13, C17)
+pub(crate) unsafe fn e2e_mpmc_teardown_nonempty(cap: u64) {
+    ledger::ON = true;
+    ledger::CAP_USED = ledger::CAP;
+    let n = crate::broadcast::BroadcastSender::<Pay>::vf_expected_n(cap);
+    {
+        let (tx, rx) = mpmc_queue_with::<Pay, EWait>(cap, EWait { notify: false });
+        let mut j = 0;
+        while j < n {
+            assert!(tx.try_send(Pay::new(j)).is_ok());
+            j += 1;
+        }
+        match rx.try_recv() {
+            Ok(p) => assert!(p.val == 0),
+            Err(_) => assert!(false),
+        }
+        drop(rx);
+        match tx.try_send(Pay::new(5)) {
+            Err(TrySendError::Disconnected(p)) => assert!(p.val == 5, "C13: value handed back"),
+            _ => assert!(false, "C13: with no receiver left try_send reports Disconnected"),
+        }
+        drop(tx);
+    }
+    assert!(pay::DOUBLE_DROP == 0 && pay::DROP_OF_UNCREATED == 0, "C05: double drop at teardown");
+    assert!(pay::live_count() == 0, "C05: a queued payload was never dropped at teardown");
+    assert!(ledger::BAD_FREE == 0 && ledger::LIVE_N == 0, "C17: memory still allocated after the last handle was dropped");
+}
+
+
+impl<T> MPMCSender<T> {
+    /// entry points for the native bounded runs (tools/gen_dispatch.py)
+    pub(crate) unsafe fn vf_e2e(cap: u64) {
+        e2e_mpmc(cap)
+    }
+    pub(crate) unsafe fn vf_e2e_teardown(cap: u64) {
+        e2e_mpmc_teardown_nonempty(cap)
+    }
+}
